@@ -5,6 +5,11 @@ ROOT = os.path.dirname(os.path.dirname(os.path.abspath(__file__)))
 ALL = ["C%02d" % i for i in range(1, 21)]
 # id -> (category, engine, technique, level text, level note, design ref)
 CHECKS = {
+ "C01": ("model_checking", "E2-state",
+         "exhaustive enumeration of contents x push paths x stacks x read/range entry points, exhaustive single and pairwise response corruptions, and a history search with a byte/digest sweep",
+         "(a) every byte string of length 0..3 (quick) / 0..4 (thorough) over {NUL,'a',0xC3} plus lengths 5, 8191-8193 (thorough 16385, 131072/3) through {PushBlob, chunked whole and split at every position, raw single POST, mount, manifest by tag/digest, raw PUT by digest} on {mem, client->server->mem, +ocidebug, +Select, +Sub, ociunify seq/conc, two hops}: every complete read returns exactly the pushed bytes, an independently recomputed digest equal to the requested one and the right size; EVERY (offset0, offset1) pair returns the exact slice while describing the whole blob; (b) every inconsistent descriptor kind is rejected and leaves nothing retrievable; (c) BFS over histories with pushes, deletes, mounts and upload-session reuse, sweep compares everything ever committed; (d) every single and every PAIR of response corruptions (flip each byte, truncate to each length, append, replace, Content-Length +-1/0/absent/garbage, Docker-Content-Digest other/malformed/absent/sha512, 206) for GetBlob/GetManifest/GetTag: delivered bytes inconsistent with the reader's descriptor must never end in a clean EOF.",
+         "Sentence 3 applies to complete reads (range readers are unverified by design). Empty/inverted ranges over HTTP are C03's known finding.",
+         "DESIGN.md 3 C01"),
  "C02": ("model_checking", "E2-state",
          "explicit-state BFS over operation histories of the real ocimem.Registry with a reference-model oracle and full read sweep in every state",
          "Breadth-first search over all histories (alphabet ~110 operations: pushes with good/bad descriptors, 9 manifest kinds tagged/untagged, mounts, deletes, one chunked upload session with write/resume/commit/cancel, invalid names) to depth 2 (quick) / 4 with caps (thorough) from the empty registry and from 6 seeded non-initial states, in both configurations, plus a closed mini-universe explored to FIXPOINT (every reachable state, any history length). A state is the canonical reflective dump of the real registry object graph plus upload handles; every transition is a real call compared with a three-valued reference model, then ~260 read/resolve/list queries are compared with the model. All traces are implementation traces.",
